@@ -16,7 +16,7 @@ abbrev Row := List Nat
 inductive GTree where
   | leaf (i : Nat)
   | node (l r : GTree)
-  deriving Repr
+  deriving Repr, DecidableEq
 
 def GTree.leaves : GTree → List Nat
   | .leaf i => [i]
@@ -118,5 +118,79 @@ def alignMultiple (al : List Nat → List Nat → PTrace) (g : Nat) (seqs : List
       let numbered := picked.map (numberCodes g 0)
       .ok (some { seqs := picked.map (strip g), rows := numbered,
                   trace := transpose (width rows) numbered, order := order })
+
+/-! ### `as_binary` (tree.pyx): the guide tree a user supplies may be multifurcating -/
+
+inductive MTree where
+  | leaf (i : Nat)
+  | node (cs : List MTree)
+
+mutual
+def MTree.leaves : MTree → List Nat
+  | .leaf i => [i]
+  | .node cs => MTree.leavesList cs
+def MTree.leavesList : List MTree → List Nat
+  | [] => []
+  | c :: cs => c.leaves ++ MTree.leavesList cs
+end
+
+mutual
+/-- `_as_binary`: a node with one child is replaced by the child; a node with children `c₁ … c_k` (k ≥ 2) becomes
+`(((c₁, c₂), c₃), …, c_k)`.  `none`: an inner node without children (cannot be built as a `TreeNode`). -/
+def asBinary : MTree → Option GTree
+  | .leaf i => some (.leaf i)
+  | .node cs => match asBinaryList cs with
+    | none => none
+    | some [] => none
+    | some [c] => some c
+    | some (c1 :: c2 :: rest) => some (rest.foldl GTree.node (GTree.node c1 c2))
+def asBinaryList : List MTree → Option (List GTree)
+  | [] => some []
+  | c :: cs => match asBinary c, asBinaryList cs with
+    | some b, some bs => some (b :: bs)
+    | _, _ => none
+end
+
+/-! ### the distance formula of `_get_distance_matrix` (Feng & Doolittle), exactly
+
+`D = −ln((S − S_rand) / (S_max − S_rand))` with `S_max = (S_aa + S_bb)/2` and
+`S_rand = pairSum / L + nOpen·go + nExt·ge`, where `pairSum = Σ_x Σ_y s(x,y)·N_a(x)·N_b(y)` and `L` is the number of
+columns of the pairwise alignment.  All three quantities are scaled by `2L > 0`, so everything is an integer. -/
+
+structure DistIn where
+  S : Int        -- score of the pairwise alignment of a and b
+  Saa : Int      -- self-alignment scores
+  Sbb : Int
+  pairSum : Int
+  L : Nat        -- columns of the alignment of a and b
+  nOpen : Nat
+  nExt : Nat
+  go : Int
+  ge : Int
+  deriving Repr
+
+/-- `2L·(S − S_rand)` -/
+def DistIn.num (d : DistIn) : Int := 2 * d.L * d.S - 2 * (d.pairSum + d.L * (d.nOpen * d.go + d.nExt * d.ge))
+/-- `2L·(S_max − S_rand)` -/
+def DistIn.den (d : DistIn) : Int := d.L * (d.Saa + d.Sbb) - 2 * (d.pairSum + d.L * (d.nOpen * d.go + d.nExt * d.ge))
+
+inductive DistOutcome where
+  | belowRandom   -- `S < S_rand`: the documented ValueError
+  | zeroDivision  -- `S_max = S_rand`: float division by zero
+  | infinite      -- `S = S_rand`: `−ln 0 = ∞`, refused later by `upgma`
+  | notANumber    -- ratio negative: `ln` of a negative number
+  | finite
+  deriving DecidableEq, Repr
+
+/-- what the code does with one pair, in the order of its tests -/
+def distOutcome (d : DistIn) : DistOutcome :=
+  if d.num < 0 then .belowRandom
+  else if d.den = 0 then .zeroDivision
+  else if d.num = 0 then .infinite
+  else if d.den < 0 then .notANumber
+  else .finite
+
+/-- the formula has a (finite, real) value: denominator non-zero and the argument of `ln` positive -/
+def DistDefined (d : DistIn) : Prop := d.den ≠ 0 ∧ ((0 < d.num ∧ 0 < d.den) ∨ (d.num < 0 ∧ d.den < 0))
 
 end BiotiteModel.C11
